@@ -317,6 +317,17 @@ func arrCopy(dst, doff, src, soff, n *Term, ew int) *Term {
 		}
 		return dst
 	}
+	if m := umax(n); m <= 64 {
+		vals := make([]*Term, m)
+		for i := range vals {
+			vals[i] = Select(src, Add(soff, c64(int64(i))))
+		}
+		for i := range vals {
+			at := Add(doff, c64(int64(i)))
+			dst = Store(dst, at, Ite(Ult(c64(int64(i)), n), vals[i], Select(dst, at)))
+		}
+		return dst
+	}
 	return Lambda(64, ew, func(i *Term) *Term {
 		rel := Sub(i, doff)
 		return Ite(Ult(rel, n), Select(src, Add(soff, rel)), Select(dst, i))
